@@ -30,11 +30,15 @@ func (r *Reader) readInfe(b *box) (err error) {
 	}
 	offset := b.offset + int(b.size) - b.remain
 
-	for i := 0; i < len(buf); {
+	for i := 0; i+12 <= len(buf); {
 		infeFastHeaderSize := 21
 
 		var contentType imagetype.ImageType
 		size := int(bmffEndian.Uint32(buf[i : i+4]))
+		// an entry cannot be smaller than its own header nor reach past the box
+		if size < 12 || size > len(buf)-i {
+			break
+		}
 		boxType := boxTypeFromBuf(buf[i+4 : i+8])
 		flags := flags(bmffEndian.Uint32(buf[i+8 : i+12]))
 
@@ -51,6 +55,10 @@ func (r *Reader) readInfe(b *box) (err error) {
 			continue
 		}
 
+		if size < infeFastHeaderSize+1 {
+			i += size
+			continue
+		}
 		itemID := itemID(bmffEndian.Uint16(buf[i+12 : i+14]))
 		itemType := itemTypeFromBuf(buf[i+16 : i+20])
 		// expect whitespace
